@@ -972,7 +972,7 @@ fn resolve_in_scenario(sc: &Scenario, declared: &str) -> Option<PathBuf> {
 
 fn op_paths(op: &FsOp) -> Vec<String> {
     match op {
-        FsOp::Write { path, .. } | FsOp::Append { path, .. } | FsOp::Touch { path } | FsOp::WriteKeepMtime { path, .. } | FsOp::WriteOlder { path, .. } | FsOp::WriteMmap { path, .. } | FsOp::Create { path, .. } | FsOp::Delete { path } => vec![path.clone()],
+        FsOp::Write { path, .. } | FsOp::Append { path, .. } | FsOp::Touch { path } | FsOp::WriteKeepMtime { path, .. } | FsOp::WriteOlder { path, .. } | FsOp::WriteAncient { path, .. } | FsOp::WriteMmap { path, .. } | FsOp::Create { path, .. } | FsOp::Delete { path } => vec![path.clone()],
         FsOp::Rename { from, to } => vec![from.clone(), to.clone()],
         FsOp::SetVar { .. } => vec![],
     }
